@@ -94,8 +94,10 @@ class Sim:
         t0=1000.0,
         max_stall=0.0,
         stall_budget=0.0,
+        creep=False,
     ):
         self.chooser = chooser
+        self.creep = creep
         self.t0 = t0
         self.horizon = t0 + horizon
         self.max_steps = max_steps
@@ -432,19 +434,28 @@ def h_sleep(d):
     me.sim.block_until(lambda: False, me.sim.now + max(0.0, d), what='sleep', positive=d > 0)
 
 
+def _sim_now(sim):
+    if sim.creep:
+        # optional: every clock read moves the virtual clock by one ulp, like a real clock that never stands still.
+        # Needed where code under test polls "remaining = total - (now - t0)" down to residues that float arithmetic
+        # absorbs (a virtual clock that only moves when everybody is blocked would spin forever at one instant).
+        sim.now = math.nextafter(sim.now, math.inf)
+    return sim.now
+
+
 def h_monotonic():
     me = cur()
-    return _real_monotonic() if me is None else me.sim.now
+    return _real_monotonic() if me is None else _sim_now(me.sim)
 
 
 def h_perf_counter():
     me = cur()
-    return _real_perf_counter() if me is None else me.sim.now
+    return _real_perf_counter() if me is None else _sim_now(me.sim)
 
 
 def h_time():
     me = cur()
-    return _real_time() if me is None else me.sim.now
+    return _real_time() if me is None else _sim_now(me.sim)
 
 
 def h_start_new_thread(func, args, kwargs={}):
